@@ -170,8 +170,10 @@ class Cadence(collections.abc.MutableSequence):
             # since adding and subtracting the offset is not exact
             ts = frame.ts
             frame.ts = ts + (frame.t_start - self.t_start)
-            frame.add_signal(*args, **kwargs)
-            frame.ts = ts
+            try:
+                frame.add_signal(*args, **kwargs)
+            finally:
+                frame.ts = ts
         
     def apply(self, func):
         """
